@@ -404,3 +404,144 @@ Proof.
     change (43 =? 45)%N with false. cbn iota.
     replace (1 * (h * 3600 + m * 60))%Z with off by lia. rewrite V0. replace (m <? 60)%Z with true by lia. reflexivity.
 Qed.
+
+(* ---- the sub-second half of the round trip ---- *)
+Lemma strip_trailing_spec s : exists k, s = strip_trailing 48%N s ++ rep 48%N k.
+Proof.
+  induction s as [|x t [k IH]]; [exists 0; reflexivity|]. cbn [strip_trailing].
+  destruct (strip_trailing 48%N t) as [|y t'] eqn:E.
+  - cbn [app] in IH. destruct (N.eqb_spec x 48) as [->|N].
+    + exists (S k). rewrite IH at 1. reflexivity.
+    + exists k. rewrite IH at 1. reflexivity.
+  - exists k. rewrite IH at 1. reflexivity.
+Qed.
+Lemma parse_digits_rep0 k : forall acc, parse_digits (rep 48%N k) acc = Some (acc * 10 ^ Z.of_nat k)%Z.
+Proof.
+  induction k as [|k IH]; intro acc; [cbn; f_equal; lia|].
+  cbn [rep repeat parse_digits]. change (is_digit 48%N) with true. cbn iota. fold (rep 48%N k). rewrite IH.
+  f_equal. rewrite Nat2Z.inj_succ, Z.pow_succ_r by lia. change (Z.of_N (48 - 48)) with 0%Z. lia.
+Qed.
+Lemma forallb_app_l {A} (f : A -> bool) a b : forallb f (a ++ b) = true -> forallb f a = true.
+Proof. rewrite forallb_app. intro H. apply andb_true_iff in H. exact (proj1 H). Qed.
+Lemma span_digits_app a c rest : forallb is_digit a = true -> is_digit c = false -> span_digits (a ++ c :: rest) = (a, c :: rest).
+Proof.
+  induction a as [|x a IH]; intros Ha Hc; cbn [app span_digits].
+  - rewrite Hc. reflexivity.
+  - cbn [forallb] in Ha. apply andb_true_iff in Ha as [Hx Ha]. rewrite Hx, (IH Ha Hc). reflexivity.
+Qed.
+Lemma parse_digits_some a : forallb is_digit a = true -> forall acc, exists z, parse_digits a acc = Some z.
+Proof.
+  induction a as [|x a IH]; intros Ha acc; [eexists; reflexivity|]. cbn [forallb] in Ha. apply andb_true_iff in Ha as [Hx Ha].
+  cbn [parse_digits]. rewrite Hx. apply IH, Ha.
+Qed.
+(* nine digits with the trailing zeros removed: at least one digit is left, and scaling it back gives the value *)
+Lemma fraction_digits ns : (0 < ns < 1000000000)%Z ->
+  let a := strip_trailing 48%N (pad_left 48%N 9 (show_Z ns)) in
+  forallb is_digit a = true /\ 1 <= length a <= 9 /\ scale9 (firstn 9 a) = ns.
+Proof.
+  intros H a. set (s9 := pad_left 48%N 9 (show_Z ns)) in *.
+  assert (L9 : length s9 = 9).
+  { unfold s9. rewrite pad_left_spec. pose proof (show_Z_len ns 9 ltac:(change (10 ^ Z.of_nat 9)%Z with 1000000000%Z; lia) ltac:(lia)).
+    unfold rep. rewrite app_length, repeat_length. lia. }
+  assert (D9 : forallb is_digit s9 = true) by (unfold s9; rewrite pad_left_spec, forallb_app, forallb_rep, show_Z_digits by lia; reflexivity).
+  assert (P9 : parse_digits s9 0%Z = Some ns) by (unfold s9; rewrite pad_left_spec, parse_digits_app, parse_digits_zeros; apply show_Z_nonneg_parse; lia).
+  destruct (strip_trailing_spec s9) as [k Hk]. fold a in Hk.
+  assert (Da : forallb is_digit a = true) by (rewrite Hk in D9; exact (forallb_app_l _ _ _ D9)).
+  assert (Lk : length a + k = 9) by (rewrite Hk in L9; unfold rep in L9; rewrite app_length, repeat_length in L9; exact L9).
+  destruct (parse_digits_some a Da 0%Z) as [z Hz].
+  assert (Hns : ns = (z * 10 ^ Z.of_nat k)%Z).
+  { rewrite Hk, parse_digits_app, Hz, parse_digits_rep0 in P9. inversion P9. reflexivity. }
+  assert (La : 1 <= length a).
+  { destruct a as [|x a']; [|cbn; lia]. cbn in Hz. inversion Hz; subst z. lia. }
+  split; [exact Da|]. split; [lia|].
+  rewrite firstn_all2 by lia. unfold scale9. rewrite Hz. rewrite Hns. replace (9 - length a) with k by lia. reflexivity.
+Qed.
+
+Theorem display_parse_roundtrip t : printable t -> parse_default (show_datetime t) = Some t.
+Proof.
+  intros Hp. destruct (Z.eq_dec (dt_nano t) 0) as [Hn|Hn]; [apply display_parse_roundtrip_whole_seconds; assumption|].
+  destruct Hp as [V [Y [h [m [Hh [Hm Ho]]]]]].
+  destruct t as [[y mo d] hh mi ss ns off]. cbn [dt_date dt_nano dt_off d_year] in *.
+  pose proof V as V0. unfold valid_dt, valid_date in V. cbn [dt_date dt_hour dt_min dt_sec dt_nano d_year d_month d_day] in V.
+  assert (d <= 31)%Z as Hd by (unfold days_in_month in V; destruct (mo =? 2)%Z; [destruct (is_leap y)|destruct ((mo =? 4) || (mo =? 6) || (mo =? 9) || (mo =? 11))%Z]; lia).
+  destruct (fraction_digits ns ltac:(lia)) as (Da & La & Sa).
+  unfold show_datetime, show_date. cbn [dt_date dt_hour dt_min dt_sec dt_nano dt_off d_year d_month d_day].
+  replace (ns =? 0)%Z with false by lia. set (a := strip_trailing 48%N (pad_left 48%N 9 (show_Z ns))) in *.
+  unfold parse_default. rewrite <- !app_assoc.
+  rewrite take_num_padz by (change (10 ^ Z.of_nat 4)%Z with 10000%Z; lia). cbn [app expect_c]. rewrite N.eqb_refl.
+  rewrite take_num_padz by (change (10 ^ Z.of_nat 2)%Z with 100%Z; lia). cbn [app expect_c]. rewrite N.eqb_refl.
+  rewrite take_num_padz by (change (10 ^ Z.of_nat 2)%Z with 100%Z; lia). cbn [app expect_c]. rewrite N.eqb_refl.
+  rewrite take_num_padz by (change (10 ^ Z.of_nat 2)%Z with 100%Z; lia). cbn [app expect_c]. rewrite N.eqb_refl.
+  rewrite take_num_padz by (change (10 ^ Z.of_nat 2)%Z with 100%Z; lia). cbn [app expect_c]. rewrite N.eqb_refl.
+  rewrite take_num_padz by (change (10 ^ Z.of_nat 2)%Z with 100%Z; lia). cbn [app].
+  rewrite span_digits_app by (try exact Da; reflexivity).
+  replace (Nat.leb 1 (length a)) with true by (symmetry; apply Nat.leb_le; lia). rewrite Sa.
+  cbn [expect_c]. rewrite N.eqb_refl.
+  unfold show_offset. cbn [app].
+  assert (Z.abs off / 3600 = h /\ (Z.abs off / 60) mod 60 = m)%Z as [Eh Em] by lia.
+  rewrite Eh, Em.
+  destruct (off <? 0)%Z eqn:Sg.
+  - change ((45 =? 43)%N || (45 =? 45)%N) with true. cbn iota.
+    rewrite take_num_padz by (change (10 ^ Z.of_nat 2)%Z with 100%Z; lia).
+    rewrite <- (app_nil_r (padz 2 m)). rewrite take_num_padz by (change (10 ^ Z.of_nat 2)%Z with 100%Z; lia).
+    change (45 =? 45)%N with true. cbn iota.
+    replace (-1 * (h * 3600 + m * 60))%Z with off by lia. rewrite V0. replace (m <? 60)%Z with true by lia. reflexivity.
+  - change ((43 =? 43)%N || (43 =? 45)%N) with true. cbn iota.
+    rewrite take_num_padz by (change (10 ^ Z.of_nat 2)%Z with 100%Z; lia).
+    rewrite <- (app_nil_r (padz 2 m)). rewrite take_num_padz by (change (10 ^ Z.of_nat 2)%Z with 100%Z; lia).
+    change (43 =? 45)%N with false. cbn iota.
+    replace (1 * (h * 3600 + m * 60))%Z with off by lia. rewrite V0. replace (m <? 60)%Z with true by lia. reflexivity.
+Qed.
+
+(* ---- the ISO week, for every year ---- *)
+Definition jan1 (y : Z) : Z := date_days (mkDate y 1 1).
+Definition year_len (y : Z) : Z := if is_leap y then 366%Z else 365%Z.
+
+Lemma days_of_ordinal d : valid_date d = true -> date_days d = (jan1 (d_year d) + ordinal d - 1)%Z.
+Proof.
+  intro V. pose proof (valid_date_month d V) as M. destruct d as [y m dd]. cbn [d_year d_month d_day] in *.
+  unfold valid_date, ordinal, jan1, date_days in *. cbn [d_year d_month d_day] in *.
+  destruct (is_leap y) eqn:L; month_cases M; unfold days_in_month in *; rewrite ?L in *; closed_bools;
+    match goal with |- context [cum_days ?k] => ev (cum_days k) end; unfold days_from_civil; closed_bools;
+    try (apply is_leap_spec in L);
+    try (assert (~ ((y mod 4 = 0 /\ y mod 100 <> 0) \/ y mod 400 = 0)%Z) as L' by (rewrite <- is_leap_spec; congruence));
+    lia.
+Qed.
+Lemma jan1_next y : jan1 (y + 1) = (jan1 y + year_len y)%Z.
+Proof.
+  unfold jan1, year_len, date_days, days_from_civil. cbn [d_year d_month d_day]. closed_bools.
+  destruct (is_leap y) eqn:L; [apply is_leap_spec in L|assert (~ ((y mod 4 = 0 /\ y mod 100 <> 0) \/ y mod 400 = 0)%Z) as L' by (rewrite <- is_leap_spec; congruence)]; lia.
+Qed.
+Lemma ordinal_le_len d : valid_date d = true -> (1 <= ordinal d <= year_len (d_year d))%Z.
+Proof.
+  intro V. pose proof (valid_date_month d V) as M. destruct d as [y m dd]. cbn [d_year d_month d_day] in *.
+  unfold valid_date, ordinal, year_len in *. cbn [d_year d_month d_day] in *.
+  destruct (is_leap y) eqn:L; month_cases M; unfold days_in_month in *; rewrite ?L in *; closed_bools;
+    match goal with |- context [cum_days ?k] => ev (cum_days k) end; lia.
+Qed.
+
+(* ISO 8601: the week-year of a day is the civil year that contains the Thursday of its week, and the week
+   number counts the Thursdays of that year *)
+Theorem iso_week_is_the_thursday_rule d : valid_date d = true ->
+  let T := (date_days d - wd_mon0 d + 3)%Z in
+  let Y := fst (iso_year_week d) in
+  (jan1 Y <= T < jan1 (Y + 1))%Z /\ snd (iso_year_week d) = ((T - jan1 Y) / 7 + 1)%Z.
+Proof.
+  intro V. pose proof (ordinal_le_len d V) as Ho. pose proof (days_of_ordinal d V) as Hd.
+  cbv zeta. unfold iso_year_week, weeks_in_year, wd_mon0.
+  set (y := d_year d) in *. set (o := ordinal d) in *.
+  change (date_days (mkDate y 1 1)) with (jan1 y). change (date_days (mkDate (y - 1) 1 1)) with (jan1 (y - 1)).
+  pose proof (jan1_next y) as N1. pose proof (jan1_next (y + 1)) as N2. pose proof (jan1_next (y - 1)) as N0.
+  replace (y - 1 + 1)%Z with y in N0 by lia. replace (y + 1 + 1)%Z with (y + 2)%Z in N2 by lia.
+  rewrite Hd. unfold year_len in *.
+  set (J := jan1 y) in *. set (Jp := jan1 (y - 1)) in *. set (Jn := jan1 (y + 1)) in *. set (Jnn := jan1 (y + 2)) in *.
+  assert (Adj : (is_leap y = true -> is_leap (y - 1) = false /\ is_leap (y + 1) = false) /\ (is_leap (y - 1) = true -> is_leap (y + 1) = false)).
+  { unfold is_leap. lia. }
+  destruct (is_leap y) eqn:L0; destruct (is_leap (y - 1)) eqn:Lp; destruct (is_leap (y + 1)) eqn:Ln; cbn [andb];
+  try (exfalso; destruct Adj as [A1 A2]; first [destruct (A1 eq_refl); discriminate | specialize (A2 eq_refl); discriminate]);
+  clear Adj;
+  repeat match goal with |- context [if ?c then _ else _] => destruct c eqn:? end; cbn [fst snd];
+  repeat match goal with H : context [if ?c then _ else _] |- _ => destruct c eqn:? end;
+  try (replace (y - 1 + 1)%Z with y by lia; fold J); try (replace (y + 1 + 1)%Z with (y + 2)%Z by lia; fold Jnn); fold Jn; fold Jp;
+  lia.
+Qed.
